@@ -253,7 +253,9 @@ func (w *w1) judgeOffsets() {
 					clause := "overlap"
 					if w.etcdMode() {
 						w.sim.Probe("c02.lease-handover-overlap")
-						lost := func(r *produceRec) bool { return r.appendSeen && (!r.heldAtAppend || !r.heldAtAck) }
+						lost := func(r *produceRec) bool {
+							return (r.appendSeen && (!r.heldAtAppend || !r.heldAtAck)) || w.lostBeforeReply(r.topic, r.part, r.inc, r.invoke, r.ret)
+						}
 						if lost(p.r) || lost(a.r) {
 							// one of the two requests lost its lease between its ownership check and its
 							// acknowledgement: the unfenced-write gap recorded as KF-C19-check-then-act
